@@ -203,6 +203,18 @@ pub fn gen_uri(r: &mut Rng) -> GenUri {
     let port = if r.chance(1, 2) { Some(if r.chance(1, 3) { *r.pick(&[1u16, 80, 443, 631, 8631, 65535]) } else { r.range(1, 65535) as u16 }) } else { None };
     let path = if r.chance(1, 5) {
         String::new()
+    } else if r.chance(1, 6) {
+        // the shapes printers and CUPS really use
+        let base = *r.pick(&["/ipp/print", "/ipp", "/printers/laser", "/printers/", "/jobs/42", "/jobs/", "/jobs", "/classes/all", "/admin", "/admin/", "/ipp/print/queue1", "/JOBS/7", "/printers/jobs/3"]);
+        base.to_string()
+    } else if r.chance(1, 40) {
+        // long paths: the canonical URI passes 255, 1023 / 1024 and 4096 octets
+        let n = *r.pick(&[230usize, 250, 990, 1000, 1010, 1024, 1100, 4090, 5000]);
+        let mut p = String::from("/");
+        while p.len() < n {
+            p.push_str(*r.pick(&["long", "%20", "seg/", "x", "Z9"]));
+        }
+        p
     } else {
         let segs = r.below(4);
         let mut p = String::from("/");
@@ -326,6 +338,19 @@ pub fn transport_line(u: &GenUri) -> String {
 
 fn gen_text_arg(r: &mut Rng) -> String {
     let lim = Limits { max_depth: 0, boundary: false };
+    if r.chance(1, 25) {
+        // long texts around the usual limits (255 / 1023 octets), ASCII and multi-byte
+        let n = *r.pick(&[254usize, 255, 256, 257, 300, 1023, 1024, 2000]);
+        let unit = *r.pick(&["a", "é", "日", "😀"]);
+        let mut t = String::new();
+        while t.len() + unit.len() <= n {
+            t.push_str(unit);
+        }
+        while t.len() < n {
+            t.push('z');
+        }
+        return hex(t.as_bytes());
+    }
     hex(gen_string(r, &lim).as_bytes())
 }
 
